@@ -23,7 +23,7 @@ LEMMAS = ["threshold-rules-are-affine-covariant", "reversed-cumsum-of-reversed-i
 class OtsuAndAffine(Bounded):
     name = "otsu-vs-definition-and-affine-invariance"
     bound = ("threshold_otsu vs the brute-force between-class variance (objective value within 1e-9 relative, not the index) on 150 (quick) / "
-             "1000 (thorough) bimodal / noisy / tiny (< 256 entries) / constant arrays; end-to-end affine invariance of locate_droplets for "
+             "1000 (thorough) bimodal / noisy / tiny (< 256 entries) / constant arrays and one array of 1100 x 1100 values with a single extreme value; end-to-end affine invariance of locate_droplets for "
              "all automatic rules and a mapped numeric threshold on 40/300 dyadic fields with maps x -> 2^k x + m (exact in floating point)")
 
     def run(self, tier, seed):
@@ -36,7 +36,13 @@ class OtsuAndAffine(Bounded):
         for t in range(150 if tier == "quick" else 1000):
             n = int(rng.choice([5, 17, 64, 200, 256, 1000, 4096]))
             kind = t % 4
-            if kind == 0:
+            if t == 1:
+                # one LARGE image (more than 2**20 values): a smooth bimodal field plus a single bright value at an odd position - the histogram is
+                # that of ALL values (its range is set by the extreme ones)
+                n = 1100 * 1100
+                data = np.concatenate([rng.normal(0, 0.1, n // 2), rng.normal(1, 0.1, n - n // 2)])
+                data[777777] = 9.0
+            elif kind == 0:
                 data = np.concatenate([rng.normal(0, 0.1, n // 2), rng.normal(1, 0.1, n - n // 2)])
             elif kind == 1:
                 data = rng.random(n)
